@@ -160,6 +160,41 @@ def case_export(run, i):
                                 dict(ploidy=ploidy, is_haploid_x_reference=male_ref, is_sample_female=female, diploid_parx_genome=par, sample_id="LBL", cnarr=None), "export-vcf")
         if r is not None:
             cli_plumb.held(run, "export-vcf", "cli-export-vcf")
+        # jtv / cdt through the sub-commands with the files named in a non-sorted order: every sample's column must sit under its own ID
+        if len(files) >= 2:
+            import csv
+            order = [files[k] for k in rng.permutation(len(files))]
+            if order == sorted(order):
+                order = order[::-1]
+            per_file = {}
+            for fn in order:
+                with open(fn) as fh:
+                    per_file[os.path.basename(fn).rsplit(".", 1)[0]] = [float(r["log2"]) for r in csv.DictReader(fh, delimiter="\t")]
+            for fmt, skip in (("jtv", 0), ("cdt", 1)):
+                outp = os.path.join(d, "q." + fmt)
+                mon = f"cli.export-{fmt}[file]"
+                try:
+                    a = K.parse_args(["export", fmt] + order + ["-o", outp])
+                    a.func(a)
+                    with open(outp) as fh:
+                        rows = list(csv.reader(fh, delimiter="\t"))
+                    head, body = rows[0], rows[1 + (2 if fmt == "cdt" else 0):] if fmt == "cdt" else rows[1:]
+                    bad = None
+                    for sid, vals in per_file.items():
+                        if sid not in head:
+                            bad = f"no column headed {sid}"
+                            break
+                        j = head.index(sid)
+                        got = [float(r[j]) for r in body if len(r) > j and r[j] not in ("", "EWEIGHT")]
+                        if len(got) != len(vals) or any(abs(g - v) > 1e-5 * abs(v) + 1e-9 for g, v in zip(got, vals)):
+                            bad = f"the column headed {sid} does not hold {sid}'s log2 values"
+                            break
+                    if bad:
+                        run.violate(mon, f"export-{fmt}-cli-columns-under-wrong-sample", bad, {"files_in_order": order, "header": head})
+                    else:
+                        run.held(mon, f"cli-export-{fmt}")
+                except Exception as exc:
+                    run.extra[f"cli-raised:{fmt}:{type(exc).__name__}"] += 1
         for argv in (["export", "bed", segf, "--show", "variant", "-o", os.path.join(d, "o.bed")] + common,
                      ["export", "vcf", segf, "-o", os.path.join(d, "o.vcf")] + common,
                      ["export", "seg"] + files + ["-o", os.path.join(d, "o.seg")],
